@@ -1,5 +1,6 @@
 """Run Verus on the generated file (once per tree hash) and classify its diagnostics."""
 import fcntl
+import hashlib
 import json
 import os
 import re
@@ -38,10 +39,41 @@ def verus_cmd(path, rlimit, seed=None, extra=()):
 
 
 def run(repo_src='/repo/src', rlimit=60, seed=None, use_cache=True, tag=''):
-    """Returns a dict: gen (text), key, diags (list), summary (verus json), wall_s, machinery_error (str|None)."""
+    """Runs Verus on the generated file. When the file cannot be processed (rustc error, construct the installed Verus does not
+    support) and every such diagnostic lies inside functions, those functions are *degraded* -- kept with their signature
+    contract but marked external_body, body annotations dropped -- and the run is repeated (at most 4 rounds). The contract
+    of a degraded function is then assumed, not checked: bin/check reports every property that has a clause or safety
+    obligation in it as undecided, while the rest of the file is still decided."""
+    force = set()
+    reasons = {}
+    for _round in range(5):
+        res = _run_once(repo_src, rlimit, seed, use_cache, tag, force)
+        if res['compiled'] or _round == 4:
+            break
+        culprits = set()
+        whole_file = False
+        for f in res['failures']:
+            if f['kind'] != 'machinery':
+                continue
+            if f['fn'] and f['fn'] not in force and f['fn'] not in res['index'].fn_ext:
+                culprits.add(f['fn'])
+                reasons.setdefault(f['fn'], f['msg'][:200])
+            elif not f['fn']:
+                whole_file = True
+        if whole_file or not culprits:
+            break
+        force |= culprits
+    res['degraded'] = sorted(force) if res['compiled'] else []
+    res['degraded_reasons'] = reasons
+    return res
+
+
+def _run_once(repo_src, rlimit, seed, use_cache, tag, force_ext):
     t0 = time.time()
-    built = gen.build(repo_src)
+    built = gen.build(repo_src, force_ext=set(force_ext))
     key = gen.source_hash(repo_src) + ('-s%d' % seed if seed else '') + ('-r%d' % rlimit) + tag
+    if force_ext:
+        key += '-d' + hashlib.sha256(','.join(sorted(force_ext)).encode()).hexdigest()[:8]
     d = os.path.join(CACHE, 'verus', key)
     os.makedirs(d, exist_ok=True)
     gpath = os.path.join(d, 'gen.rs')
@@ -93,6 +125,8 @@ class GenIndex:
         self.fn_props = {}
         self.fn_sem = {}
         self.fn_ext = set()
+        self.fn_unc = set()   # functions without a contract section
+        self.fn_deg = set()   # functions degraded to external_body for this run
         self.labels = {}  # name -> dict(props, line, fn)
         self.label_lines = {}  # line -> [names]
         stack, mod = [], None
@@ -114,6 +148,10 @@ class GenIndex:
                     self.fn_sem[name] = sem if sem is not None else props
                     if 'ext=1' in toks[1:]:
                         self.fn_ext.add(name)
+                    if 'unc=1' in toks[1:]:
+                        self.fn_unc.add(name)
+                    if 'deg=1' in toks[1:]:
+                        self.fn_deg.add(name)
                     stack.append(name)
                 elif kind == 'ENDFN':
                     if stack:
@@ -195,7 +233,7 @@ def classify(res):
             safety = ('arithmetic' in low or 'bit shift' in low or 'division' in low or external_pre)
             props = list(idx.fn_props.get(fn, [])) if safety else list(idx.fn_sem.get(fn, []))
         f = dict(msg=msg, labels=labels, fn=fn, props=props, line=line, rendered=rendered, kind=kind)
-        if kind == 'obligation' and fn is None and not labels:
+        if kind == 'obligation' and not labels and (fn is None or fn in idx.fn_unc):
             # a proof obligation failed in code that carries no contract section: a function the specs do not know (added by
             # a change) or a lemma of the ghost library. The file was processed, so the other functions' verdicts stand;
             # this one is reported as "needs contract" (undecided), never as a violation.
